@@ -663,10 +663,19 @@ impl<T> DataReaderEntity<T> {
     }
 
     /// To be called when a writer is not matched any longer: it stops being a live writer of the
-    /// instances it had registered
+    /// instances it had registered and loses the instances it owns
     pub fn remove_instance_writer(&mut self, writer_guid: &[u8; 16]) {
         for instance in self.instances.iter_mut() {
             instance.remove_writer(writer_guid);
+        }
+        let owned_instances: Vec<_> = self
+            .instance_ownership
+            .iter()
+            .filter(|x| &x.owner_handle == writer_guid)
+            .map(|x| x.instance_handle)
+            .collect();
+        for instance_handle in owned_instances {
+            self.hand_over_instance_ownership(&instance_handle);
         }
     }
 
